@@ -9,6 +9,7 @@ import (
 )
 
 func init() {
+	families["conc_persist"] = genConcPersist
 	families["faults_w"] = genFaultsW
 	families["fault_read"] = genFaultRead
 	families["conc_free"] = genConcFree
@@ -352,11 +353,32 @@ func genConcSched(r *rand.Rand, i int) Scenario {
 		}
 		groups[p] = ops
 	}
+	var after []Op
+	if i%3 == 2 {
+		// a merge that has the segment as an input runs as one of the processes; another process opens the
+		// dictionaries of the fields (handles kept by the harness) while the merge is inside those fields;
+		// the handles are used again after the merge has finished
+		sc.Ops = append(sc.Ops, Op{Op: "persist", Seg: 1, File: 7}, Op{Op: "load", File: 7, Seg: 7, Backing: "mem"})
+		seg = 7 // a fresh object: no dictionary cached yet
+		fs := append([]string{}, u...)
+		sort.Slice(fs, func(a, b int) bool { return fs[a] == "_id" || (fs[b] != "_id" && fs[a] < fs[b]) })
+		holder := []Op{}
+		for _, f := range fs {
+			holder = append(holder, Op{Op: "contains", Seg: seg, Field: f, Term: B([]byte("x")), ReuseD: true})
+			after = append(after, Op{Op: "contains", Seg: seg, Field: f, Term: B([]byte("x")), ReuseD: true},
+				Op{Op: "dict", Seg: seg, Field: f, ReuseD: true})
+		}
+		groups = [][]Op{{{Op: "merge", File: 30, In: []int{seg, 1}, Drops: []DropSpec{{Kind: "nil"}, randDrops(r, len(b1))}, Mode: 0, Buf: 64}}, holder}
+		np = 2
+	}
 	sched := make([]int, 6+r.Intn(20))
 	for k := range sched {
 		sched[k] = 1 + r.Intn(np)
 	}
 	sc.Ops = append(sc.Ops, Op{Op: "sched", Groups: groups, Schedule: sched})
+	if len(after) > 0 {
+		sc.Ops = append(sc.Ops, Op{Op: "par", Groups: [][]Op{after}}) // still part of the concurrent history (C09)
+	}
 	// nested visits without any concurrency
 	for k := 0; k < 3; k++ {
 		sc.Ops = append(sc.Ops, Op{Op: "stored", Seg: seg, N: pick(), Nested: &Op{Op: "stored", Seg: seg, N: pick()}})
@@ -432,5 +454,39 @@ func genFaultReadBig(r *rand.Rand, i int) Scenario {
 	}
 	sc.Ops = append(sc.Ops, Op{Op: "it_adv", It: 20, D: 600}, Op{Op: "it_next", It: 20}, Op{Op: "it_adv", It: 20, D: 1500}, Op{Op: "it_next", It: 20},
 		Op{Op: "stored", Seg: 2, N: 0}, Op{Op: "stored", Seg: 2, N: 200}, Op{Op: "dict", Seg: 2, Field: "f"}, Op{Op: "dict", Seg: 2, Field: "g"})
+	return sc
+}
+
+// conc_persist: the same segment object persisted by several goroutines at once into slow destinations (each call
+// is still inside Write when the others start), also while it is being read and merged; every file must carry its
+// own CRC over its own bytes and be identical to the sequential one (C09, C11)
+func genConcPersist(r *rand.Rand, i int) Scenario {
+	cfg := defaultCfg(r)
+	cfg.MinDocs, cfg.MaxDocs = 2, 8
+	sc := Scenario{Name: fmt.Sprintf("conc_persist-%d", i), NormKind: "code", Universe: universeOf(&cfg), Tags: []string{"conc_persist"}}
+	seq := 0
+	b1 := genBatch(r, &cfg, &seq)
+	sc.Batches = []Batch{b1}
+	sc.Ops = append(sc.Ops, Op{Op: "build", Seg: 1, Batch: 0, Mode: pickMode(r)}, Op{Op: "persist", Seg: 1, File: 1})
+	seg := 1
+	if i%2 == 1 {
+		sc.Ops = append(sc.Ops, Op{Op: "load", File: 1, Seg: 2, Backing: []string{"mem", "file"}[r.Intn(2)]})
+		seg = 2
+	}
+	ng := 2 + r.Intn(3)
+	groups := make([][]Op, ng)
+	for g := 0; g < ng; g++ {
+		ops := []Op{}
+		for k := 0; k < 2; k++ {
+			ops = append(ops, Op{Op: "persist", Seg: seg, File: 100 + 10*g + k, Slow: true})
+		}
+		if g == ng-1 && r.Intn(2) == 0 {
+			ops = append(ops, Op{Op: "merge", File: 90, In: []int{seg}, Drops: []DropSpec{{Kind: "nil"}}, Mode: 0, Buf: 64, Slow: true})
+		}
+		groups[g] = ops
+	}
+	sc.Ops = append(sc.Ops, Op{Op: "par", Groups: groups}, Op{Op: "persist", Seg: seg, File: 200},
+		Op{Op: "load", File: 100, Seg: 50, Backing: "mem"}, Op{Op: "observe", Seg: 50, Level: "light"},
+		Op{Op: "load", File: 111, Seg: 51, Backing: "mem"}, Op{Op: "observe", Seg: 51, Level: "light"})
 	return sc
 }
